@@ -6,7 +6,8 @@ package main
 //
 //	Z payload ok:<inflated> | err      compress/gzip oracle for a packed payload, recorded with a reference loop written
 //	                                   here from the documented behaviour of objects.GzipPacked (read until an empty read)
-//	K id kind body implId              implId: the 64-bit pattern of what the implementation returned, or "panic"
+//	K id kind body implId wantId       implId: the 64-bit pattern of what the implementation returned, or "panic";
+//	                                   wantId: the id the generator wrote into an intact result, "-" for other bodies
 //
 // Everything derives from VERIF_SEED.
 
@@ -18,6 +19,7 @@ import (
 	"strconv"
 
 	"github.com/xelaj/mtproto"
+	"github.com/xelaj/mtproto/verifharness/refserver"
 	vc "verifcommon"
 )
 
@@ -93,6 +95,7 @@ func cmdReqID(tier, path string) {
 	seenZ := map[string]bool{}
 	n := 0
 	stats := map[string]int{}
+	curID := uint64(0) // the id written into the result the body was made from
 	emit := func(kind string, body []byte) {
 		// oracle entry for the payload the body would hand to compress/gzip
 		if len(body) >= 4 && binary.LittleEndian.Uint32(body) == rqGzipCrc {
@@ -111,7 +114,12 @@ func cmdReqID(tier, path string) {
 		if panicked {
 			impl = "panic"
 		}
-		out.Line("K", fmt.Sprintf("k%d", n), kind, vc.Hex(body), impl)
+		want := "-"
+		switch kind {
+		case "result", "result-large", "packed-result", "packed-result+tail", "packed-result-large", "packed-result-pieces":
+			want = strconv.FormatUint(curID, 16)
+		}
+		out.Line("K", fmt.Sprintf("k%d", n), kind, vc.Hex(body), impl, want)
 		stats[kind]++
 	}
 	ids := []uint64{1, 4, 0x5e0b700a00000000, 0x7fffffffffffffff, 0x8000000000000000, 0xfffffffffffffffc, 0xffffffffffffffff, 0x100000000, 0xffffffff}
@@ -133,16 +141,34 @@ func cmdReqID(tier, path string) {
 		}
 	}
 	for _, id := range ids {
+		curID = id
 		for ri, res := range results() {
 			plain := append(append(rqLE32(rqResultCrc), rqLE64(id)...), res...)
 			emit("result", plain)
 			packed := append(rqLE32(rqGzipCrc), rqPutMessage(rqGzip(plain))...)
 			emit("packed-result", packed)
+			// the same result from compressors which do not write their stream in one piece (flushes, stored blocks,
+			// several members): what the first Read of an inflater hands out is then shorter than the object
+			for v := 1; v < refserver.GzipVariants; v++ {
+				ks := []int{1 + r.Intn(12)}
+				if ri == 0 && (v == 1 || v == 4) {
+					ks = []int{1, 2, 3, 4, 5, 7, 8, 11, 12, 13}
+				}
+				for _, k := range ks {
+					emit("packed-result-pieces", append(rqLE32(rqGzipCrc), rqPutMessage(refserver.GzipStream(plain, v, k))...))
+				}
+			}
 			if ri == 0 {
 				emit("packed-result+tail", append(append([]byte{}, packed...), r.Bytes(4*r.Intn(4))...))
 				// cut everywhere around the id
 				for _, cut := range []int{0, 1, 3, 4, 5, 8, 11} {
 					emit("result-cut", plain[:cut])
+				}
+				// the packed object itself is a result cut before the end of its id
+				for cut := 0; cut < 12; cut++ {
+					for _, v := range []int{0, 1 + cut%(refserver.GzipVariants-1)} {
+						emit("packed-cutresult", append(rqLE32(rqGzipCrc), rqPutMessage(refserver.GzipStream(plain[:cut], v, 4))...))
+					}
 				}
 				for _, cut := range []int{4, 5, 7, 8, len(packed) - 4, len(packed) - 1} {
 					if cut >= 0 && cut <= len(packed) {
@@ -184,7 +210,11 @@ func cmdReqID(tier, path string) {
 			v = append(v, rqLE32(uint32(7000+i))...)
 		}
 		plain := append(append(rqLE32(rqResultCrc), rqLE64(0x5e0b700a00000040)...), v...)
+		curID = 0x5e0b700a00000040
 		emit("result-large", plain)
+		for v := 1; v < refserver.GzipVariants; v++ {
+			emit("packed-result-pieces", append(rqLE32(rqGzipCrc), rqPutMessage(refserver.GzipStream(plain, v, 1+r.Intn(12)))...))
+		}
 		emit("packed-result-large", append(rqLE32(rqGzipCrc), rqPutMessage(rqGzip(plain))...))
 	}
 	for i := 0; i < reps; i++ {
